@@ -5,8 +5,13 @@ Correspondence (all compared inside Coq with Model/Filters.v through Check/Chk_C
            mask) for a list of windows (every window 0 <= first <= last < n plus windows reaching outside);
   filt   : DefaultRealizationFilter(config, 0) + get_realization_weights with sort-objective (one or several
            objectives, weighted keys) and sort-constraint; out-of-range windows must raise ConfigError at construction;
-  e2e    : EnsembleEvaluator(...) + calculate with 1-3 filters mapped onto 1-3 objectives and 0-3 constraints: the
-           rows of Realizations.objective_weights / constraint_weights and the function values.
+           the same filter object is also called before/after on other values;
+  e2e    : EnsembleEvaluator(...) + calculate (functions) with 1-3 filters mapped onto 1-3 objectives and 0-3
+           constraints: the rows of Realizations.objective_weights / constraint_weights and the function values;
+  seq    : request sequences on ONE EnsembleEvaluator (function-only, gradient-only re-using the cached function result,
+           function+gradient, 1-3 points), through an optimizer step driven by a scripted optimizer, or an evaluator
+           step: weight matrices of function AND gradient results, values, gradients, delivered results, exit codes
+           (TOO_FEW_REALIZATIONS when a window is emptied by failures).
 
 The drivers, Gallina printers and oracles shared with C04 live in props/C04.py.
 """
@@ -31,6 +36,7 @@ EXHAUSTIVE = {"quick": True, "thorough": True}
 
 F = Fraction
 SORT_KINDS = ["sort-objective", "sort-constraint"]
+SEQ_QUICK, SEQ_THOROUGH = 400, 7000
 MIXED_KINDS = ["sort-objective", "sort-constraint", "sort-objective", "sort-constraint", "cvar-objective", "cvar-constraint"]
 CFGW_POOL = [0.0, 0.0, 0.125, 0.25, 0.375, 0.5, 0.625, 0.75, 0.875, 1.0]
 
@@ -68,11 +74,15 @@ def coq_case(case, obs):
         return f"(Helper {base.qs(case['values'])} {base.qs(case['cfgw'])} {cq.bs(case['failed'])} {cq.lst(ans)})"
     if k == "filt":
         return base.filt_term(case, obs)
+    if k == "seq":
+        return base.seq_term(case, obs)
     return base.e2e_term(case, obs)
 
 
 def oracle(case, obs):
     k = case["kind"]
+    if k == "seq":
+        return base.oracle_seq(case, obs)
     if k == "helper":
         keys = [None if f else F(v) for v, f in zip(case["values"], case["failed"])]
         for (first, last), a in zip(case["windows"], obs["answers"]):
@@ -155,9 +165,13 @@ def gen_cases(tier, rng):
         c = base.gen_filt(rng, SORT_KINDS, wild_rate=0.12)
         c["_stream"] = "filt"
         yield c
-    for _ in range(600 if tier == "quick" else 10000):
+    for _ in range(300 if tier == "quick" else 7000):
         c = base.gen_e2e(rng, MIXED_KINDS)
         c["_stream"] = "e2e"
+        yield c
+    for _ in range(SEQ_QUICK if tier == "quick" else SEQ_THOROUGH):
+        c = base.gen_seq(rng, MIXED_KINDS)
+        c["_stream"] = "seq"
         yield c
 
 
@@ -210,39 +224,60 @@ def search(rng, case):
             yield base.gen_filt(rng, SORT_KINDS)
         for _ in range(200):
             yield base.gen_e2e(rng, MIXED_KINDS)
+        for _ in range(300):
+            yield base.gen_seq(rng, MIXED_KINDS)
 
 
 RULE = ("helper/exhaustive: every failure mask x every permutation of n distinct values for n <= 5 (quick) / n <= 6 (thorough), each with "
         "EVERY window 0 <= first <= last < n (plus four windows reaching outside / inverted) and a configured weight vector with zeros and "
         "pairwise distinct non-zero entries; helper/ties: values from {0,1,2} (sampled in quick, all vectors x masks for n <= 5 in thorough); "
         "helper/sampled: n <= 40; filt: DefaultRealizationFilter construction + get_realization_weights for sort-objective (1-3 objectives, "
-        "weighted keys) and sort-constraint incl. out-of-range windows, windows emptied by failures, zero-weight windows; e2e: "
-        "EnsembleEvaluator construction + calculate with 1-3 filters (sort and cvar) mapped onto 1-3 objectives and 0-3 constraints through "
-        "filter-index maps incl. -1. Non-trivial = at least two successful realizations (helper), an Ok answer with a non-zero weight on an "
-        "ensemble of >= 2 (filt), an Ok result with a filtered weight matrix (e2e); distinct = distinct case inputs.")
+        "weighted keys) and sort-constraint incl. out-of-range windows, windows emptied by failures, zero-weight windows, 35% with the same filter object "
+        "called on other values before (half of those also after) the judged call, method names also in upper case / with the plug-in prefix; e2e: "
+        "EnsembleEvaluator construction + calculate (functions) with 1-3 filters (sort and cvar) mapped onto 1-3 objectives and 0-3 constraints through "
+        "filter-index maps incl. -1; seq: 1-3 points x 17 request patterns (F, G, FG; gradient-only re-use of the cached function result, stale cache, "
+        "repeated requests) on one EnsembleEvaluator (60%), through an optimizer step driven by a scripted optimizer (30%) or an evaluator step (10%); "
+        "filter sets mixed / 2-4 filters of the SAME method / windows reaching past the successful ranks; maps any / objectives only / constraints only / all "
+        "functions (unused configured filters included); function failures 0-100%, perturbation failures 0-40%; half of the cases with a lazy evaluator "
+        "(garbage in every entry flagged inactive) and with a caller that overwrites every writable array it is handed. Non-trivial = at least two "
+        "successful realizations (helper), an Ok answer with a non-zero weight on an ensemble of >= 2 (filt), an Ok result with a filtered weight matrix "
+        "(e2e, seq); distinct = distinct case inputs.")
 ASSUMPTIONS = [
     "first/last are non-negative integers (pydantic NonNegativeInt); ranking values are finite; the stored (normalised) realization and "
-    "objective weights of the validated configuration are the model's inputs",
-    "np.argsort puts NaN last and returns a permutation consistent with the values; the order of tied values is unspecified (every tie order is accepted)",
+    "objective weights of the validated configuration are the model's inputs; sort indices are within the number of objectives / constraints",
+    "np.argsort puts NaN last and returns a permutation consistent with the values; the order of tied values is unspecified (every tie order is accepted: "
+    "C05_tie_robust, C05_checker_accepts_every_tie_order)",
     "generators draw few-bit dyadic values and dyadic normalised objective weights so that the implementation's float keys are exact",
+    "seq cases: one optimisation variable, affine evaluator around each point, perturbation magnitude 1, uniform sampler on [0.5, 1], perturbation_min_success >= 1, "
+    "mean estimator, no merge_realizations; the known finding C14:abort-inside-calculate (nothing delivered for an evaluation aborted by a filter) is what the "
+    "step model encodes",
 ]
 TRUSTED = [
-    "NumPy (argsort/where/count_nonzero/dot, fancy-index assignment) as executed by the real code; pydantic validation of the option models",
-    "end-to-end cases in which a filter in use ranks tied values are only checked by the Python oracle, not compared with the model "
-    "(the outcome may depend on the unspecified tie order); tie handling is checked at helper and filter level by the tie-robust predicate",
+    "NumPy (argsort/where/count_nonzero/dot, fancy-index assignment, SVD in the 1-variable gradient estimate) as executed by the real code; pydantic validation of the option models",
+    "end-to-end / sequence cases in which a filter in use ranks tied values are only checked by the Python oracle, not compared with the model "
+    "(the outcome may depend on the unspecified tie order); tie handling is checked at helper and filter level by the tie-robust predicate, which is "
+    "proved complete for every tie order and sound off the window edges (C05_checker_*)",
+    "the scripted optimizer plug-in and the table evaluator of the seq cases (harness code); EnsembleOptimizer/plan steps as executed by the real code",
 ]
 
 MANIFEST = {
-    "level_text": ("Machine-checked Coq proofs about the executable model of ropt's sort filters (Model/Filters.v, structured like "
-                   "_sort_and_select / _sort_objectives / _sort_constraint / _check_range / get_realization_weights and the evaluator's row "
-                   "assignment), for all ensemble sizes, failure masks, value vectors, windows and weight vectors; the model is tied to the code "
-                   "on every run by an in-Coq correspondence (exhaustive small-n enumeration over permutations x masks x windows, sampled "
-                   "larger ensembles, function level and through EnsembleEvaluator.calculate)."),
-    "level_note": ("Proved: the theorems of Props/C05.v (rank-window characterisation robust to ties, failed never ranked, empty window => "
-                   "TOO_FEW_REALIZATIONS, range rejection at configuration time, each filter's row applied to exactly the functions mapped to it), all "
-                   "'Closed under the global context'.  Trusted / modelled, not verified: np.argsort (any order consistent with the keys; end-to-end "
-                   "cases whose filter ranks tied values are judged by the tie-robust oracle only), pydantic option validation; Coq kernel + VM; "
+    "level_text": ("Machine-checked Coq proofs about the executable model of ropt's sort filters and of the evaluator around them (Model/Filters.v, structured like "
+                   "_sort_and_select / _sort_objectives / _sort_constraint / _check_range / get_realization_weights, the evaluator's row assignment, calculate with "
+                   "its gradient cache and the exit-code test of optimizer / evaluator steps), for all ensemble sizes, failure masks, value vectors, tie orders, "
+                   "windows, weight vectors, filter maps and request sequences; the model is tied to the code on every run by an in-Coq correspondence "
+                   "(exhaustive small-n enumeration over permutations x masks x windows, sampled larger ensembles, function level, through "
+                   "EnsembleEvaluator.calculate for functions and gradients, and through optimizer / evaluator steps)."),
+    "level_note": ("Proved (Props/C05.v, 22 theorems, all 'Closed under the global context'): rank-window characterisation (C05_window, C05_ranking) and its form for ANY "
+                   "ranking argsort may return (C05_tie_robust, C05_model_is_along), failed never ranked, empty window => TOO_FEW_REALIZATIONS at filter level "
+                   "(C05_empty_is_too_few_*), at evaluator level (C05_emptied_window_is_too_few: no value, no other exit code) and for optimizer / evaluator steps "
+                   "(C05_step_exit_code, C05_step_first_evaluation_aborts, C05_evaluator_step_exit_code), range rejection at configuration time, each filter's row "
+                   "applied to exactly the functions mapped to it (C05_rows_*), the reported value and gradient use that row (C05_reported_value, "
+                   "C05_gradient_value_in_force), gradient results carry the matrices of the function evaluation of the same point for every request order incl. "
+                   "the cached path (C05_any_request_order, C05_gradient_weights_in_force), and the checker's tie-robust predicate accepts every tie order and is "
+                   "sound off the window edges (C05_checker_accepts_every_tie_order, C05_checker_accepts_abort_of_every_tie_order, C05_checker_sound).  "
+                   "Trusted / modelled, not verified: np.argsort (any order consistent with the keys; end-to-end cases whose filter ranks tied values are judged by "
+                   "the tie-robust oracle only), the least-squares gradient of one affine realization (= its slope), pydantic option validation; Coq kernel + VM; "
                    "the Python drivers."),
-    "technique": "Coq proof (induction over lists, sorting facts) on an executable Gallina model + in-Coq differential correspondence with the real filter code",
+    "technique": "Coq proof (induction over lists, sorting/counting facts, request-sequence invariant) on an executable Gallina model + in-Coq differential correspondence with the real filter/evaluator code",
     "design_ref": "DESIGN.md section 4, C05",
 }
